@@ -38,7 +38,7 @@ type C08Scenario struct {
 
 func (s *C08Scenario) SchedPtr() *[]int { return &s.Sched }
 
-var c08Subjects = []string{"rowgroup", "reader", "generic", "multi", "pages", "values", "buffer", "rgreader"}
+var c08Subjects = []string{"rowgroup", "reader", "generic", "multi", "pages", "values", "buffer", "rgreader", "merged-pages"}
 
 type C08 struct{}
 
@@ -130,6 +130,9 @@ func (C08) Run(s any, c *core.Ctx) core.Outcome {
 	}
 	out.Sig = fmt.Sprintf("%s|%s|%s|%s", sc.Plan.Shape, sc.Plan.W.Sig(), sc.Subject, opsig)
 
+	if sc.Subject == "merged-pages" {
+		return c08MergedPages(sc, c)
+	}
 	if sc.Subject == "buffer" {
 		buf := sh.NewBuffer(gen.BGeneric)
 		if _, err := buf.Write(data, 0, data.Len()); err != nil {
@@ -421,6 +424,13 @@ func c08ColumnOps(c *core.Ctx, subject string, cc parquet.ColumnChunk, ci int, m
 		}
 	}
 	rowStart[len(model)] = len(vals)
+	return c08ColumnOpsVals(c, subject, cc, vals, rowStart, ops, back, served)
+}
+
+// c08ColumnOpsVals is c08ColumnOps with the model given as the column's value
+// sequence and the value index at which each row starts.
+func c08ColumnOpsVals(c *core.Ctx, subject string, cc parquet.ColumnChunk, vals []parquet.Value, rowStart []int, ops []SeekOp, back, served *int) *core.Violation {
+	model := make([]struct{}, len(rowStart)-1) // only its length is used below
 	hist := ""
 	seeked := false
 	if subject == "pages" {
@@ -432,7 +442,7 @@ func c08ColumnOps(c *core.Ctx, subject string, cc parquet.ColumnChunk, ci int, m
 			switch op.Op {
 			case "index":
 				hist += " index"
-				if _, err := cc.OffsetIndex(); err != nil {
+				if _, err := cc.OffsetIndex(); err != nil && !errors.Is(err, parquet.ErrMissingOffsetIndex) {
 					return core.Violate("C08/index-error/pages", "op %d:%s: OffsetIndex: %v", i, hist, err)
 				}
 			case "seek":
@@ -549,4 +559,78 @@ func c08ColumnOps(c *core.Ctx, subject string, cc parquet.ColumnChunk, ci int, m
 		}
 	}
 	return nil
+}
+
+// c08MergedPages seeks and reads the pages of a column of a merged row group
+// whose segments are row-range views (merge of partially overlapping sorted
+// files): the views' SeekToRow is only reachable this way.
+func c08MergedPages(sc *C08Scenario, c *core.Ctx) core.Outcome {
+	out := core.Outcome{}
+	sortCols := gen.SortingColumns(sortSpecs[0])
+	cmp := keyedSchema.Comparator(sortCols...)
+	nin := 2 + sc.RowGroup%2
+	var rgs []parquet.RowGroup
+	for i := 0; i < nin; i++ {
+		typed, _ := keyedInput(sc.Plan.RowSeed, "partial", i, nin, 1300+100*i, cmp)
+		sink, face := env.NewSink(c, env.SinkFaces{}, nil)
+		w := parquet.NewGenericWriter[gen.Keyed](face, parquet.PageBufferSize(64), parquet.SortingWriterConfig(parquet.SortingColumns(sortCols...)))
+		if _, err := w.Write(typed); err != nil {
+			out.Violation = core.Violate("C08/fault-free-write-error/write", "%v", err)
+			return out
+		}
+		if err := w.Close(); err != nil {
+			out.Violation = core.Violate("C08/fault-free-write-error/close", "%v", err)
+			return out
+		}
+		sf := env.NewFile(c, sink.Bytes())
+		f, err := parquet.OpenFile(sf, sf.Size())
+		if err != nil {
+			out.Violation = core.Violate("C08/open-error", "%v", err)
+			return out
+		}
+		rgs = append(rgs, f.RowGroups()...)
+	}
+	merged, err := parquet.MergeRowGroups(rgs, parquet.SortingRowGroupConfig(parquet.SortingColumns(sortCols...)), keyedSchema)
+	if err != nil {
+		out.Violation = core.Violate("C08/merge-error", "%v", err)
+		return out
+	}
+	ccs := merged.ColumnChunks()
+	ci := sc.Column % len(ccs)
+	// the model is this reader kind's own sequential read: the chunks of a merged
+	// row group are the concatenation of its segments' chunks, which in truly
+	// overlapping stretches is not the order of merged.Rows()
+	seqVals, _, err := readColumnPages(ccs[ci], c)
+	if err != nil && !errors.Is(err, io.EOF) {
+		out.Violation = core.Violate("C08/read-error/merged-pages", "sequential read of the merged column chunk: %v", err)
+		return out
+	}
+	var rowStart []int
+	for i, v := range seqVals {
+		if v.RepetitionLevel() == 0 {
+			rowStart = append(rowStart, i)
+		}
+	}
+	rowStart = append(rowStart, len(seqVals))
+	n := int64(len(rowStart) - 1)
+	ops := make([]SeekOp, len(sc.Ops))
+	copy(ops, sc.Ops)
+	for i := range ops {
+		// spread the seek targets over the merged rows
+		if ops[i].Op == "seek" && int64(sc.Plan.NRows) > 0 {
+			ops[i].K = ops[i].K * n / int64(sc.Plan.NRows)
+			if ops[i].K > n {
+				ops[i].K = n
+			}
+		}
+	}
+	back, served := 0, 0
+	out.Violation = c08ColumnOpsVals(c, "pages", ccs[ci], seqVals, rowStart, ops, &back, &served)
+	if out.Violation != nil {
+		out.Violation.Class += "/merged"
+	}
+	out.Nontrivial = back > 0 && served > 0
+	out.Sig = fmt.Sprintf("merged-pages|%d|%d|%d", nin, ci, len(ops))
+	out.Sample = map[string]any{"subject": sc.Subject, "inputs": nin, "rows": n, "column": ci, "ops": ops}
+	return out
 }
